@@ -284,6 +284,71 @@ def _filter_nonempty_argument(ctx, f, node):
     return None
 
 
+def r3e_builtin_on_empty(ctx, chk, rule="C06.3e"):
+    """max()/min() without default over a successor list that may be empty (all transitions pruned) raises a stray
+    ValueError out of solve().  Lists are non-empty up to the reachability phase (validated); afterwards only under a
+    dominating non-emptiness test."""
+    str_f = ctx.func("tad.py::Solver.solve_total_rewards")
+    post = set(ctx.cg.reachable([str_f]))
+    roles = K.role_classes(ctx)
+    n = 0
+    for role, cls in roles.items():
+        for meth in sorted(ctx.prog.classes[cls].methods):
+            f = ctx.prog.resolve_method(cls, meth)
+            if f not in post:
+                continue
+            k = K.kernel(ctx, cls, meth)
+            for t in set(C02._sub(k.ret) + [x for e in k.sx.final.effects for x in C02._sub(e)] +
+                         [x for L in k.sx.loops.values() for u in list(L.update.values()) + list(L.filters or []) + ([L.elt] if L.elt else []) for x in C02._sub(u)]):
+                if t[0] == "call" and t[1] in ("max", "min") and len(t[2]) == 1 and t[2][0][0] == "compr" and "default" not in dict(t[3]):
+                    L = k.sx.loops[t[2][0][1]]
+                    root = L.source
+                    while root[0] == "compr":
+                        root = k.sx.loops[root[1]].source
+                    if root != SELF_NEXT:
+                        continue
+                    n += 1
+                    guarded = _ret_guarded_nonempty(k, t)
+                    if guarded:
+                        chk.ok(rule, f.where(), "%s.%s: %s() over the successors is evaluated only when the list is non-empty (%s)" % (cls, meth, t[1], guarded))
+                    else:
+                        chk.violation(rule, f.where(), "%s.%s evaluates %s() without default over the successor list after pruning: a state whose transitions were all pruned makes solve() fail with a stray "
+                                      "'ValueError: %s() iterable argument is empty' (reported as an unsolvable game)" % (cls, meth, t[1], t[1]),
+                                      expected="a non-emptiness test or default=", found=show(t)[:120], construct="%s.%s %s() on possibly empty successors" % (cls, meth, t[1]))
+    chk.extra["builtin_extrema_post_pruning"] = n
+
+
+def _ret_guarded_nonempty(k, call_t):
+    """The call term occurs in the return value only under a non-emptiness condition of self.next_states."""
+    nonempty = (("truthy", SELF_NEXT), simp(("cmp", "!=", C(0), ("call", "len", (SELF_NEXT,), ()))), simp(("cmp", "<", C(0), ("call", "len", (SELF_NEXT,), ()))))
+    empty = tuple(simp(("not", c)) for c in nonempty)
+
+    def walk(t, guarded):
+        if t == call_t:
+            return guarded
+        if not isinstance(t, tuple) or not t or not isinstance(t[0], str):
+            return True
+        if t[0] == "ite":
+            c = t[1]
+            g_then = guarded or c in nonempty
+            g_else = guarded or c in empty
+            return walk(t[2], g_then) and walk(t[3], g_else) and walk(c, guarded)
+        ok = True
+        for x in t[1:]:
+            if isinstance(x, tuple):
+                if x and isinstance(x[0], str):
+                    ok = ok and walk(x, guarded)
+                else:
+                    for y in x:
+                        if isinstance(y, tuple):
+                            ok = ok and (walk(y, guarded) if y and isinstance(y[0], str) else all(walk(z, guarded) for z in y if isinstance(z, tuple)))
+        return ok
+    if not any(x == call_t for x in C02._sub(k.ret)):
+        # used through a comprehension/loop: look at the path condition of effects
+        return None
+    return "dominating `if not self.next_states`" if walk(k.ret, False) else None
+
+
 def r3c_division(ctx, chk, rule="C06.3c"):
     scope = shared.solver_scope(ctx)
     n = 0
@@ -319,9 +384,14 @@ def run(ctx, chk):
     r3a_definite_assignment(ctx, chk)
     r3b_constant_subscripts(ctx, chk)
     r3c_division(ctx, chk)
+    r3e_builtin_on_empty(ctx, chk)
     shared.rule_no_recursion(ctx, chk, "C06.3d", [ctx.func("tad.py::StochasticGame.solve")], "solve()")
     C03.r1(ctx, chk, "C06.pre:C03.1")
     C07.r1_no_recursion(ctx, chk, "C06.pre:C07.1")
+    # 'no solution' is raised exactly when R[0] == 0 only if the reachability domain is complete (C01 prerequisites)
+    C07.r2_roots(ctx, chk, "C06.pre:C07.2")
+    C07.r4_result(ctx, chk, "C06.pre:C07.4")
+    C07.r35_worklist(ctx, chk, "C06.pre:C07.3", "C06.pre:C07.5")
     # structural necessary conditions for termination of the sweeps
     C01.r4_sweep(ctx, chk, "C06.term:C01.4")
     C02.r3_sweep(ctx, chk, "C06.term:C02.3")
